@@ -12,4 +12,8 @@ func init() {
 	register("c03.number", func(line string) string {
 		return parser.VerifClassifyNumber(string(unhex(strings.Fields(line)[0])))
 	})
+	// case = hex of the text handed to parseHexFloat (what follows "0x"); answer = "<reHexFloat matches> <ok>"
+	register("c03.hexfloat", func(line string) string {
+		return parser.VerifParseHexFloat(string(unhex(strings.Fields(line)[0])))
+	})
 }
